@@ -124,6 +124,14 @@ def run_case(spec):
 
     D = est.pair_distance(pairs)
     cmp('pair_distance', D)
+    for size in (4096, 8192 + 5):          # one call on many pairs (a multiple of plausible block sizes, and not)
+        reps = -(-size // len(pairs))
+        bigd = est.pair_distance(np.tile(pairs, (reps, 1, 1))[:size])
+        ix = np.arange(size) % len(pairs)
+        dev = np.abs(bigd - ref.ravel()[ix])
+        dev[~np.isfinite(bigd)] = np.inf
+        pick = np.array([bigd[ix == k_][np.argmax(dev[ix == k_])] for k_ in range(len(pairs))])
+        cmp('pair_distance(batch of %d pairs)' % size, pick)
     with warnings.catch_warnings(record=True) as w:
         warnings.simplefilter('always')
         sp = est.score_pairs(pairs)
